@@ -345,3 +345,80 @@ func init() {
 		return Val{T: t, Typ: types.Typ[types.Bool]}, true
 	}
 }
+
+// scanFuncTables finds package-level slices of functions initialised by a
+// composite literal and never reassigned (e.g. ociserver.handlers): the
+// table's content is read off the init function.
+func (L *Loaded) scanFuncTables() {
+	L.funcTables = map[string][]*ssa.Function{}
+	for _, p := range L.prog.AllPackages() {
+		if !L.isRepoPkg(p.Pkg) {
+			continue
+		}
+		init := p.Func("init")
+		if init == nil {
+			continue
+		}
+		elems := map[*ssa.Alloc]map[int64]*ssa.Function{}
+		for _, b := range init.Blocks {
+			for _, in := range b.Instrs {
+				s, ok := in.(*ssa.Store)
+				if !ok {
+					continue
+				}
+				if ia, ok := s.Addr.(*ssa.IndexAddr); ok {
+					a, ok1 := ia.X.(*ssa.Alloc)
+					k, ok2 := ia.Index.(*ssa.Const)
+					if !ok1 || !ok2 {
+						continue
+					}
+					var fn *ssa.Function
+					switch v := s.Val.(type) {
+					case *ssa.Function:
+						fn = v
+					case *ssa.MakeClosure:
+						fn, _ = v.Fn.(*ssa.Function)
+					case *ssa.ChangeType:
+						fn, _ = v.X.(*ssa.Function)
+					}
+					if fn == nil {
+						continue
+					}
+					if elems[a] == nil {
+						elems[a] = map[int64]*ssa.Function{}
+					}
+					elems[a][k.Int64()] = fn
+					continue
+				}
+				g, ok := s.Addr.(*ssa.Global)
+				if !ok {
+					continue
+				}
+				sl, ok := s.Val.(*ssa.Slice)
+				if !ok {
+					continue
+				}
+				a, ok := sl.X.(*ssa.Alloc)
+				if !ok || elems[a] == nil {
+					continue
+				}
+				at, ok := a.Type().(*types.Pointer).Elem().Underlying().(*types.Array)
+				if !ok {
+					continue
+				}
+				tbl := make([]*ssa.Function, at.Len())
+				complete := true
+				for i := range tbl {
+					tbl[i] = elems[a][int64(i)]
+					if tbl[i] == nil {
+						complete = false
+					}
+				}
+				key := "G_" + sanitize(g.Pkg.Pkg.Name()+"_"+g.Name())
+				if complete && L.immutableGlobal[key] {
+					L.funcTables[key] = tbl
+				}
+			}
+		}
+	}
+}
